@@ -255,8 +255,9 @@ func cmdReplayPolicy(args []string) int {
 					snap.Initialized = pred.Initialized // probing sanitises, which lazily initialises a zero-value policy
 					if d := APDiff(pred, snap); len(d) > 0 {
 						co.sub.diverge("history %s: real policy %d differs from the specification's: %s", histString(co.c.Hist), inst, d[0])
-						continue
 					}
+					// the behaviour is compared in any case: histories with the same rule set (according to the
+					// specification) must give policies that behave identically
 					co.inst = append(co.inst, instOut{string(JSON(pred)), probe(real[inst]), inst})
 				}
 				outs <- co
